@@ -231,7 +231,10 @@ class Tracker(CmdMixin, MboxMixin, SweepMixin, Monitor):
             cm.sub = None
         self.ev["drop_changes_nothing"] += 1
         if d or ud:
-            self.flag({"C07", "C08"}, "disconnect changed stored state", st, {"diff": _d(d), "udiff": _d(ud)})
+            also = set()
+            if cm is not None and cm.did_allocate and any(t in ("nameplates", "nameplate_sides") for (t, k, o, n) in d):
+                also.add("C04")      # an allocated nameplate is held until it is retired, not until the connection drops
+            self.flag({"C07", "C08"} | also, "disconnect changed stored state", st, {"diff": _d(d), "udiff": _d(ud)})
         if st.frames:
             self.flag({"C02"}, "disconnect produced frames", st, {"frames": st.frames})
 
